@@ -46,6 +46,15 @@ func (c08BadSigner) Sign(io.Reader, []byte, crypto.SignerOpts) ([]byte, error) {
 	return nil, errors.New("verif: signer failure")
 }
 
+// c08MirrorStore is the STH storage of a mirror instance: it always has an STH no larger than asked for.
+type c08MirrorStore struct{}
+
+func (c08MirrorStore) GetMirrorSTH(_ context.Context, maxTreeSize int64) (*ct.SignedTreeHead, error) {
+	sth := &ct.SignedTreeHead{Version: ct.V1, TreeSize: uint64(min(maxTreeSize, 4)), Timestamp: 1512345678000}
+	sth.TreeHeadSignature = ct.DigitallySigned{Algorithm: tls.SignatureAndHashAlgorithm{Hash: tls.SHA256, Signature: tls.ECDSA}, Signature: []byte{1, 2, 3, 4, 5, 6, 7, 8}}
+	return sth, nil
+}
+
 func c08DER(p string) []byte {
 	b, _ := pem.Decode([]byte(p))
 	return b.Bytes
@@ -324,12 +333,13 @@ func TestVerifC08(t *testing.T) {
 		body           string
 		bodyOk, chainOk bool
 		signOk         bool
+		mirror         bool // served by an instance with IsMirror (MirrorSTHGetter); oracle-only, the Lean model has no mirror endpoint
 	}
 	b64 := base64.StdEncoding.EncodeToString(make([]byte, 32))
 	reqs := map[string][]rq{
 		"add-chain":     {{method: "POST", body: certBody, bodyOk: true, chainOk: true, signOk: true}, {method: "POST", body: certBody, bodyOk: true, chainOk: true, signOk: false}},
 		"add-pre-chain": {{method: "POST", body: preBody, bodyOk: true, chainOk: true, signOk: true}},
-		"get-sth":       {{method: "GET", signOk: true}, {method: "GET", signOk: false}},
+		"get-sth":       {{method: "GET", signOk: true}, {method: "GET", signOk: false}, {method: "GET", signOk: true, mirror: true}},
 		"get-sth-consistency": {{p1: "3", p2: "6", has1: true, has2: true, method: "GET"}, {p1: "6", p2: "6", has1: true, has2: true, method: "GET"},
 			{p1: "1", p2: "9223372036854775807", has1: true, has2: true, method: "GET"}},
 		"get-proof-by-hash":   {{p1: "6", has1: true, hash: b64, method: "GET"}, {p1: "1", has1: true, hash: b64, method: "GET"}},
@@ -346,7 +356,7 @@ func TestVerifC08(t *testing.T) {
 		rl *c08ReqLog
 	}
 	var shared *c08Inst
-	newInst := func(signOk bool, mask bool) *c08Inst {
+	newInst := func(signOk bool, mask bool, mirror ...bool) *c08Inst {
 		in := &c08Inst{fl: &verifkit.FuncLog{}, rl: &c08ReqLog{}}
 		var signer crypto.Signer = key
 		if !signOk {
@@ -357,6 +367,10 @@ func TestVerifC08(t *testing.T) {
 			io.MaskInternalErrors = mask
 			io.Validated.Config.MaxMergeDelaySec = 86400
 			io.Validated.Config.ExpectedMergeDelaySec = 7200
+			if len(mirror) > 0 && mirror[0] {
+				io.Validated.Config.IsMirror = true
+				io.STHStorage = c08MirrorStore{}
+			}
 			vo.trustedRoots.AppendCertsFromPEM([]byte(cttestonly.FakeCACertPEM))
 			vo.trustedRoots.AppendCertsFromPEM([]byte(cttestonly.CACertPEM))
 		})
@@ -364,8 +378,8 @@ func TestVerifC08(t *testing.T) {
 	}
 	run := func(ep string, q rq, rep c08Reply, mask bool) {
 		in := shared
-		if in == nil {
-			in = newInst(q.signOk || !(ep == "add-chain" || ep == "add-pre-chain" || ep == "get-sth"), mask)
+		if in == nil || q.mirror {
+			in = newInst(q.signOk || !(ep == "add-chain" || ep == "add-pre-chain" || ep == "get-sth"), mask, q.mirror)
 		} else {
 			*in.fl = verifkit.FuncLog{}
 			in.rl.scts, in.rl.status = 0, 0
@@ -412,10 +426,20 @@ func TestVerifC08(t *testing.T) {
 				out.Fail("ep "+ep+" "+rep.desc, fmt.Sprintf("RequestLog.Status recorded %d but response status is %d", rl.status, st))
 			}
 		}
-		out.T(op, ans)
+		if q.mirror {
+			out.Count("class:mirror-instance")
+		} else {
+			out.T(op, ans)
+		}
 		out.Count("ep:" + ep)
 		// ---- the property itself
 		key := fmt.Sprintf("ep %s p1=%s p2=%s method=%s sign=%v | %s", ep, q.p1, q.p2, q.method, q.signOk, rep.desc)
+		if q.mirror {
+			key = "mirror " + key
+		}
+		if len(q.body) > 0 && !q.bodyOk {
+			key += " body=" + verifkit.Hex([]byte(q.body[max(0, len(q.body)-12):]))
+		}
 		if pn != "" {
 			out.Fail(key, "panic: "+pn)
 			return
@@ -527,6 +551,16 @@ func TestVerifC08(t *testing.T) {
 			clean[ep] = rs[0]
 		}
 	}
+	// 3a. a body that only STARTS with a well-formed request object: the JSON document as a whole is malformed
+	for _, ep := range []string{"add-chain", "add-pre-chain"} {
+		base := reqs[ep][0]
+		for _, suffix := range []string{"}", " x", base.body, "\"", "[]", "null", ",", "\x00", " {\"chain\":[]}"} {
+			q := base
+			q.body, q.bodyOk, q.chainOk = base.body+suffix, false, false
+			run(ep, q, clean[ep], false)
+			out.Count("class:trailing-data-body")
+		}
+	}
 	nbad := verifkit.N(1500, 30000)
 	for it := 0; it < nbad; it++ {
 		ep := c08Eps[r.Intn(len(c08Eps))]
@@ -548,7 +582,9 @@ func TestVerifC08(t *testing.T) {
 			q.hash = []string{"", "!!!", "AAAA", b64[:10]}[r.Intn(4)]
 		}
 		if (ep == "add-chain" || ep == "add-pre-chain") && q.method == "POST" {
-			switch r.Intn(5) {
+			switch r.Intn(6) {
+			case 5:
+				q.body, q.bodyOk, q.chainOk = q.body+[]string{"}", "]", " 1", "{}", "\"x\""}[r.Intn(5)], false, false
 			case 0:
 				q.body, q.bodyOk, q.chainOk = "{not json", false, false
 			case 1:
